@@ -26,11 +26,15 @@ def capiAlias : String → List String
 
 /-- A wrapper is thin: it calls the method of the same name and passes its own parameters, each exactly once, in
     order — followed by the provider (convenience layer; `Now` first reads the system clock), or minus the
-    output sink `write` (FFI layer). -/
+    output sink `write` (FFI layer). A convenience wrapper's body consists of exactly the lock acquisition and the
+    forwarding call as its tail expression. -/
 def thin (w : Wrapper) : Bool :=
   if w.layer == "compiled" then
     w.callee == compiledCallee w &&
-      w.args == (if w.type == "Now" then ["lit:epoch_nanos"] ++ w.params ++ ["provider"] else w.params ++ ["provider"])
+      w.args == (if w.type == "Now" then ["lit:epoch_nanos"] ++ w.params ++ ["provider"] else w.params ++ ["provider"]) &&
+      -- the body is: take the provider lock; forward (a `Now` function first defaults the zone and reads the clock):
+      -- no statement in between that could rebind, filter or replace an argument or the result
+      w.stmts == (if w.type == "Now" then 5 else 2)
   else
     (capiAlias w.name).contains w.callee && w.args == w.params.filter (· != "write")
 
@@ -42,16 +46,16 @@ def thin (w : Wrapper) : Bool :=
     * `Instant::try_new` reassembles the two words of the 128-bit value before calling `try_new`;
     * `PlainDateTime::to_ixdtf_string` formats through the core method and copies the text into the sink. -/
 def audited : List Wrapper := [
-  ⟨"capi", "AnyCalendarKind", "get_for_bcp47_string", ["s"], "get_for_bcp47_bytes", ["s"]⟩,
-  ⟨"capi", "PartialDuration", "is_empty", ["self"], "try_from", ["self"]⟩,
-  ⟨"capi", "Duration", "time", [], "transparent_convert", ["self"]⟩,
-  ⟨"capi", "Duration", "date", [], "transparent_convert", ["self"]⟩,
-  ⟨"capi", "Instant", "try_new", ["ns"], "try_new", ["lit:instant"]⟩,
-  ⟨"capi", "PlainDate", "calendar", [], "transparent_convert", ["self"]⟩,
-  ⟨"capi", "PlainDateTime", "calendar", [], "transparent_convert", ["self"]⟩,
-  ⟨"capi", "PlainDateTime", "to_ixdtf_string", ["self", "options", "display_calendar", "write"], "?", []⟩,
-  ⟨"capi", "PlainMonthDay", "calendar", [], "transparent_convert", ["self"]⟩,
-  ⟨"capi", "PlainYearMonth", "calendar", [], "transparent_convert", ["self"]⟩
+  ⟨"capi", "AnyCalendarKind", "get_for_bcp47_string", ["s"], "get_for_bcp47_bytes", ["s"], 0⟩,
+  ⟨"capi", "PartialDuration", "is_empty", ["self"], "try_from", ["self"], 0⟩,
+  ⟨"capi", "Duration", "time", [], "transparent_convert", ["self"], 0⟩,
+  ⟨"capi", "Duration", "date", [], "transparent_convert", ["self"], 0⟩,
+  ⟨"capi", "Instant", "try_new", ["ns"], "try_new", ["lit:instant"], 0⟩,
+  ⟨"capi", "PlainDate", "calendar", [], "transparent_convert", ["self"], 0⟩,
+  ⟨"capi", "PlainDateTime", "calendar", [], "transparent_convert", ["self"], 0⟩,
+  ⟨"capi", "PlainDateTime", "to_ixdtf_string", ["self", "options", "display_calendar", "write"], "?", [], 0⟩,
+  ⟨"capi", "PlainMonthDay", "calendar", [], "transparent_convert", ["self"], 0⟩,
+  ⟨"capi", "PlainYearMonth", "calendar", [], "transparent_convert", ["self"], 0⟩
 ]
 
 /-- **C19 (wrappers).** Every method of the convenience layer and every exported FFI function calls the core method
